@@ -180,6 +180,11 @@ func (server *State) Update(ctx context.Context, req *v1alpha1.UpdateRequest) (*
 		return nil, err
 	}
 
+	if req.GetOptions() == nil {
+		// request without options is the same as the request with empty options
+		req.Options = &v1alpha1.UpdateOptions{}
+	}
+
 	opts := []state.UpdateOption{state.WithUpdateOwner(req.GetOptions().GetOwner())}
 
 	if req.GetOptions().ExpectedPhase == nil {
